@@ -51,7 +51,7 @@ class Case:
                 "fact": None if self.fact is None else {"vals": [[str(x) for x in r] for r in self.fact["vals"]],
                                                          "valid": np.asarray(self.fact["valid"]).tolist(),
                                                          "form": self.fact["form"], "dtype": self.fact["dtype"],
-                                                         "oned": self.fact["oned"]},
+                                                         "oned": self.fact["oned"], "offset": self.fact.get("offset", 0)},
                 "weights": None if self.weights is None else {k: (str(v) if k == "w" and self.weights["kind"] == "scalar"
                                                                   else [str(x) for x in v] if k == "w"
                                                                   else np.asarray(v).tolist() if k == "valid" else v)
@@ -92,6 +92,10 @@ class Case:
                 out = (out[0][:, 0].copy(), out[1][:, 0].copy()) if isinstance(out, tuple) else out[:, 0].copy()
             return out
         vals = np.array([[float(x) for x in r] for r in f["vals"]], dtype=float).reshape((len(f["vals"]), f["K"]))
+        # "offset": the implementation sees every value shifted by a large constant (exactly representable together with
+        # the quarter-valued data); the specification keeps the unshifted values, because spread statistics are invariant
+        # under translation and TLC's integers are 32-bit
+        vals = vals + float(f.get("offset", 0))
         valid = np.asarray(f["valid"], dtype=bool).reshape(vals.shape)
         if f["form"] == "nan":
             arr = vals.copy()
